@@ -41,4 +41,51 @@ decreasing_by
   have := List.mem_range.mp t.2
   omega
 
+/-! ### Which fd/cs approximations a component carries out, over a history of compute_totals calls
+
+`Component._add_approximations` (core/component.py) runs whenever the relevance seen by the component
+has changed.  It re-creates the approximation schemes, asks `_get_approx_subjac_keys` for the declared
+approximated partials whose method has a scheme and whose `wrt` is relevant, gives each such `wrt` to
+the scheme of the *last* key that mentions it, and drops the schemes left empty.  The only state that
+survives from one call to the next is the set of methods that still have a scheme (`live`).
+`fixed = false` is the pinned snapshot (methods re-created = the live ones), `fixed = true` the tree
+after `fix:` 6c333d2 (the live ones plus every declared method).  Variables and methods are numbers. -/
+
+structure Decl where
+  of : Nat
+  wrt : Nat
+  method : Nat
+deriving DecidableEq, Repr
+
+/-- append every declared method that is not in the list yet -/
+def addMethods : List Nat → List Decl → List Nat
+  | ms, [] => ms
+  | ms, d :: ds => addMethods (if ms.contains d.method then ms else ms ++ [d.method]) ds
+
+def methodsOf (fixed : Bool) (live : List Nat) (decls : List Decl) : List Nat :=
+  if fixed then addMethods live decls else live
+
+/-- `_approx_subjac_keys_iter` + the relevance filter of `_get_approx_subjac_keys` -/
+def approxKeys (methods : List Nat) (rel : Nat → Bool) (decls : List Decl) : List Decl :=
+  decls.filter (fun d => methods.contains d.method && rel d.wrt)
+
+/-- "go through subjac keys in reverse and only add approx for the last of each wrt" -/
+def lastOfEachWrt : List Decl → List Decl
+  | [] => []
+  | d :: ds => if ds.any (fun e => e.wrt == d.wrt) then lastOfEachWrt ds else d :: lastOfEachWrt ds
+
+/-- the `wrt` variables the scheme of method `m` perturbs -/
+def schemeWrts (methods : List Nat) (rel : Nat → Bool) (decls : List Decl) (m : Nat) : List Nat :=
+  ((lastOfEachWrt (approxKeys methods rel decls)).filter (fun d => d.method == m)).map (·.wrt)
+
+/-- one `_add_approximations` call under relevance `rel`: the methods that keep a scheme -/
+def approxStep (fixed : Bool) (decls : List Decl) (live : List Nat) (rel : Nat → Bool) : List Nat :=
+  (methodsOf fixed live decls).filter
+    (fun m => !(schemeWrts (methodsOf fixed live decls) rel decls m).isEmpty)
+
+/-- what a call made in state `live` under relevance `rel` gives to the scheme of method `m` -/
+def approxQuery (fixed : Bool) (decls : List Decl) (live : List Nat) (rel : Nat → Bool) (m : Nat) :
+    List Nat :=
+  schemeWrts (methodsOf fixed live decls) rel decls m
+
 end OMV.C24
